@@ -72,7 +72,7 @@ class ThreadRec:
 
 
 class Scheduler:
-    def __init__(self, policy=None, site_info=False, max_steps=200000, max_threads=300):
+    def __init__(self, policy=None, site_info=False, max_steps=200000, max_threads=400):
         self.max_threads = max_threads
         self.now = 0.0
         self.base_time = 1_700_000_000.0
@@ -93,7 +93,7 @@ class Scheduler:
 
     # ------------------------------------------------------------------ registration
     def register(self, vthread, base_name):
-        if len(self.threads) >= self.max_threads:
+        if sum(1 for r in self.threads if not r.finished) >= self.max_threads:
             # like the OS refusing a new thread; keeps a runaway (e.g. a mutant that arms timers
             # exponentially) from exhausting the machine's thread table
             raise RuntimeError("can't start new thread (vsched limit %d)" % self.max_threads)
